@@ -64,7 +64,7 @@ func c14QuicScenario(c *choice.Ctx, rep *report.R, depth int) {
 	serial := byte(0)
 	sent := map[byte]string{}
 	connsAtStart := map[int]int{} // exchange -> number of connections that existed when it started
-	envFaulted := false            // a dial fault or a stalled stream was scripted in this execution
+	envFaulted := false           // a dial fault or a stalled stream was scripted in this execution
 	getConns := func() []*env.FakeQuicConn {
 		cmu.Lock()
 		defer cmu.Unlock()
